@@ -61,7 +61,7 @@ def gen_program(rng, k, uri, enc):
     files = {}
     feats = []
     n = rng.randint(2, 7)
-    pool = ["expr", "modcode", "pycode", "defdefault", "nesteddefault", "block", "callcontent", "include", "namespace", "nsimport",
+    pool = ["nsdefault", "annotations", "expr", "modcode", "pycode", "defdefault", "nesteddefault", "block", "callcontent", "include", "namespace", "nsimport",
             "pageargs", "control", "text", "manynames", "shadow", "capture", "nesteddefault", "defdefault", "nsoverlap", "falsyargs",
             "falsyargs", "nsoverlap"]
     chosen = rng.sample(pool, min(n, len(pool)))
@@ -123,6 +123,18 @@ def gen_program(rng, k, uri, enc):
             names.append(nm)
             defs.append('<%%def name="%s(x)">S(${x}|${z})</%%def>' % nm)
             body.append("${%s('arg')}" % nm)
+        elif f == "nsdefault":
+            # a nested def whose argument default is an attribute of a namespace
+            files["/nsd%d_%d.html" % (k, j)] = head + '<%def name="shout(v)">SH(${v})</%def>'
+            nm = "nso%d" % j
+            names.append(nm)
+            defs.append('<%%namespace name="util%d" file="/nsd%d_%d.html"/><%%def name="%s()"><%%def name="ni%d(f=util%d.shout, g=dflt)">${f(x)}${g}</%%def>O[${ni%d()}]</%%def>'
+                        % (j, k, j, nm, j, j, j))
+            body.append("${%s()}" % nm)
+        elif f == "annotations":
+            # Python code of the template that uses the run-time value of an annotation
+            body.insert(0, "<%%!\ndef conv%d(v: float = 0):\n    return conv%d.__annotations__['v'](v) * 2\n%%>" % (j, j))
+            body.append("${conv%d('7.5')}" % j)
         elif f == "nsoverlap":
             # several namespaces importing the same name: the last declared one wins
             parts = ""
